@@ -135,10 +135,10 @@ def load_rules():
     # ---- blend / masks
     rule(r"svt_aom_blend_a64_mask", "blend_mask", "blend_mask", [0])
     rule(r"svt_aom_highbd_blend_a64_mask", "blend_mask_hbd", "blend_mask_hbd", [0])
-    rule(r"svt_aom_blend_a64_hmask", "blend_hv", "blend_hv", [0, 0])
-    rule(r"svt_aom_blend_a64_vmask", "blend_hv", "blend_hv", [1, 0])
-    rule(r"svt_aom_highbd_blend_a64_hmask_8bit", "blend_hv_hbd", "blend_hv_hbd", [0, 1])
-    rule(r"svt_aom_highbd_blend_a64_vmask_8bit", "blend_hv_hbd", "blend_hv_hbd", [1, 1])
+    rule(r"svt_aom_blend_a64_hmask", "blend_hv", "blend_hv", [0])
+    rule(r"svt_aom_blend_a64_vmask", "blend_hv", "blend_hv", [1])
+    rule(r"svt_aom_highbd_blend_a64_hmask_8bit", "blend_hv_hbd", "blend_hv_hbd", [0])
+    rule(r"svt_aom_highbd_blend_a64_vmask_8bit", "blend_hv_hbd", "blend_hv_hbd", [1])
     rule(r"svt_aom_highbd_blend_a64_hmask_16bit", "blend_hv_hbd16", "blend_hv_hbd16", [0])
     rule(r"svt_aom_highbd_blend_a64_vmask_16bit", "blend_hv_hbd16", "blend_hv_hbd16", [1])
     rule(r"svt_aom_lowbd_blend_a64_d16_mask", "blend_d16", "blend_d16")
@@ -153,7 +153,7 @@ def load_rules():
     rule(r"svt_aom_highbd_subtract_block", "subtract_hbd", "subtract_hbd")
     rule(r"svt_aom_sse", "sse", "sse", [0])
     rule(r"svt_aom_highbd_sse", "sse", "sse", [1])
-    rule(r"svt_aom_sum_squares_i16", "sumsq_i16", "sumsq_i16")
+    rule(r"(svt_)?aom_sum_squares_i16", "sumsq_i16", "sumsq_i16")
     rule(r"svt_aom_sum_squares_2d_i16", "sumsq_2d", "sumsq_2d")
     # ---- loop filters
     rule(r"svt_aom_lpf_(horizontal|vertical)_(4|6|8|14)", "lpf", "lpf",
@@ -202,23 +202,22 @@ def load_rules():
     rule(r"svt_picture_average_kernel", "pic_avg", "pic_avg")
     rule(r"svt_picture_average_kernel1_line", "pic_avg1", "pic_avg1")
     rule(r"svt_spatial_full_distortion_kernel", "sfd", "sfd")
-    rule(r"svt_full_distortion_kernel16_bits", "fd16", "fd16")
+    rule(r"svt_full_distortion_kernel16_bits", "fd16", "sfd")
     rule(r"svt_full_distortion_kernel32_bits", "fd32", "fd32", [0])
-    rule(r"svt_full_distortion_kernel_cbf_zero32_bits", "fd32", "fd32", [1])
+    rule(r"svt_full_distortion_kernel_cbf_zero32_bits", "fd32", "fd32z", [1])
     rule(r"svt_av1_calc_frame_error", "frame_error", "frame_error")
-    rule(r"svt_compressed_packmsb", "packmsb", "packmsb")
+    rule(r"svt_compressed_packmsb", "packmsb", "msb_pack")
     rule(r"svt_c_pack", "c_pack", "c_pack")
-    rule(r"svt_unpack_avg", "unpack_avg", "unpack_avg", [0])
+    rule(r"svt_unpack_avg", "unpack_avg", "unpack_avg")
     rule(r"svt_unpack_avg_safe_sub", "unpack_avg_safe", "unpack_avg_safe")
     rule(r"svt_un_pack8_bit_data", "unpack8", "unpack8")
-    rule(r"svt_enc_msb_un_pack2_d", "msb_unpack", "msb_unpack", [0])
+    rule(r"svt_enc_msb_un_pack2_d", "msb_unpack", "msb_unpack")
     rule(r"svt_enc_un_pack8_bit_data", "unpack8", "unpack8")
     rule(r"svt_enc_msb_pack2_d", "msb_pack", "msb_pack")
-    rule(r"svt_un_pack2d_16_bit_src_mul4", "msb_unpack", "msb_unpack", [1])
+    rule(r"svt_un_pack2d_16_bit_src_mul4", "msb_unpack", "msb_unpack")
     rule(r"svt_pack2d_16_bit_src_mul4", "msb_pack", "msb_pack")
     rule(r"svt_convert_8bit_to_16bit", "cvt8to16", "cvt8to16")
     rule(r"svt_convert_16bit_to_8bit", "cvt16to8", "cvt16to8")
-    rule(r"svt_full_distortion_kernel16_bits", "fd16", "fd16")
     rule(r"svt_memcpy", "memcpy", "memcpy")
     rule(r"svt_memset16bit_block", "memset16", "memset16")  # hypothetical name, kept for trees that have it
     rule(r"svt_av1_copy_wxh_8bit", "copy_wxh", "copy_wxh", [0])
